@@ -314,7 +314,7 @@ func CheckC01(r *Run) int {
 	shapes := c01Shapes()
 	ngen := 40
 	if r.Tier != "quick" {
-		ngen = 600
+		ngen = 6000
 	}
 	shapes = append(shapes, generatedShapes("scalar", r.Seed, ngen, false, false)...)
 	runShapes(r, shapes, eqOpts{Target: "bash", CheckHazards: true}, 3000)
